@@ -92,7 +92,7 @@ def run(ctx):
                 and txt(st[0].val.slice) == txt(app[0].val.args[0])
             ctx.ob('T2.add', add.fq, 'a new item gets map[item] = len(item_list) and is appended, only when not yet present', ok, loc=add.loc)
     if n == 0:
-        ctx.ob('T2.add', add.fq, 'add appends', False, loc=add.loc)
+        ctx.unknown('T2.add', add.fq, 'no append / map store found', add.loc)
     # ---- index spaces -----------------------------------------------------------------
     gi = prog.func(CLS + '.__getitem__')
 
